@@ -66,6 +66,7 @@ def _satsolve_filein_fileout(F, cmd='minisat', verbose=0):
     sat.close()
 
     output = b''
+    foutput = []
 
     # Run the command, store its output and remove the temporary files.
     try:
@@ -79,14 +80,17 @@ def _satsolve_filein_fileout(F, cmd='minisat', verbose=0):
                              stdin=subprocess.PIPE,
                              stdout=subprocess.PIPE)
         (output, _) = p.communicate()
-        sat = open(sat.name, "r", encoding='ascii')
+        sat = open(sat.name, "r", encoding='ascii', errors='replace')
         foutput = sat.read().split()
         sat.close()
     except OSError:
         pass
     finally:
-        os.unlink(cnf.name)
-        os.unlink(sat.name)
+        for tmpname in [cnf.name, sat.name]:
+            try:
+                os.unlink(tmpname)
+            except OSError:
+                pass
 
     # At this point `output` is either the list ["UNSAT"] or a list of
     # the form ["SAT","v1","v2",...,"vn"] where each "vi" is either
@@ -96,7 +100,7 @@ def _satsolve_filein_fileout(F, cmd='minisat', verbose=0):
     result = None
     witness = None
 
-    output = output.decode("ascii")
+    output = output.decode("ascii", errors='replace')
     if verbose >= 2:
         print(output, file=sys.stderr)
 
@@ -109,7 +113,11 @@ def _satsolve_filein_fileout(F, cmd='minisat', verbose=0):
 
         result = True
 
-        witness = [int(v) for v in foutput[1:] if v != '0']
+        try:
+            witness = [int(v) for v in foutput[1:] if v != '0']
+        except ValueError:
+            raise RuntimeError("Error during SAT solver call: {}.\n".format(
+                " ".join([cmd, cnf.name, sat.name])))
         # Sort the the witness by variable id
         witness = sorted(witness, key=abs)
 
@@ -201,7 +209,7 @@ def _satsolve_stdin_stdout(F, cmd='lingeling', verbose=0):
     result = None
 
     # result is given as ASCII encoded text
-    output = output.decode('ascii')
+    output = output.decode('ascii', errors='replace')
 
     if verbose >= 2:
         print(output, file=sys.stderr)
@@ -212,16 +220,22 @@ def _satsolve_stdin_stdout(F, cmd='lingeling', verbose=0):
             continue
 
         if line[0] == 's':
-            if line.split()[1] == 'SATISFIABLE':
+            fields = line.split()
+            if len(fields) > 1 and fields[1] == 'SATISFIABLE':
                 result = True
-            elif line.split()[1] == 'UNSATISFIABLE':
+            elif len(fields) > 1 and fields[1] == 'UNSATISFIABLE':
                 result = False
             else:
                 result = None
         if line[0] == 'v':
-            witness += [
-                int(el) for el in line.split() if el != "v" and el != "0"
-            ]
+            try:
+                witness += [
+                    int(el) for el in line.split() if el != "v" and el != "0"
+                ]
+            except ValueError:
+                # garbage instead of an assignment: the solver failed
+                result = None
+                break
 
     if result is None:
         raise RuntimeError("Error during SAT solver call: {}.\n".format(cmd))
@@ -297,7 +311,7 @@ def _satsolve_filein_stdout(F, cmd='sat4j', verbose=0):
     result = None
 
     # result is given as ASCII encoded text
-    output = output.decode('ascii')
+    output = output.decode('ascii', errors='replace')
     if verbose >= 2:
         print(output, file=sys.stderr)
 
@@ -307,16 +321,22 @@ def _satsolve_filein_stdout(F, cmd='sat4j', verbose=0):
             continue
 
         if line[0] == 's':
-            if line.split()[1] == 'SATISFIABLE':
+            fields = line.split()
+            if len(fields) > 1 and fields[1] == 'SATISFIABLE':
                 result = True
-            elif line.split()[1] == 'UNSATISFIABLE':
+            elif len(fields) > 1 and fields[1] == 'UNSATISFIABLE':
                 result = False
             else:
                 result = None
         if line[0] == 'v':
-            witness += [
-                int(el) for el in line.split() if el != "v" and el != "0"
-            ]
+            try:
+                witness += [
+                    int(el) for el in line.split() if el != "v" and el != "0"
+                ]
+            except ValueError:
+                # garbage instead of an assignment: the solver failed
+                result = None
+                break
 
     if result is None:
         raise RuntimeError(
